@@ -492,4 +492,7 @@ func main() {
 	w.WriteString("end Gv.Gen\n")
 	writeIfChanged(filepath.Join(out, "Tables.lean"), w.String())
 	emitRngTab(out)
+
+	// T2: regenerated straight-line numeric code (numeric.go + one table file per property)
+	emitNumericModels(repo, out)
 }
